@@ -253,7 +253,7 @@ def file_case(case, ctx):
     try:
         i = case["rep"]
         N = 1 if i % 17 == 16 else int(rng.integers(2, 201))
-        n = 1 if i % 19 == 18 else int(rng.integers(2, 9))
+        n = 1 if i % 9 == 8 else int(rng.integers(2, 9))
         alphabet = list("XYZ") + (["H", "K"] if rng.random() < 0.3 else [])
         alphabet = [a for a in alphabet if rng.random() < 0.8] or ["Z"]
         if "Z" not in alphabet:
@@ -284,6 +284,12 @@ def file_case(case, ctx):
             if f32:
                 r = r.astype(np.float32).astype(np.float64)
             if degenerate:
+                # np.loadtxt squeezes single-row / single-column files to 1-D: accepted; but a 2-D result must keep
+                # "one row per line of the file" (N lines = N samples), it must not come back transposed
+                if a.ndim == 2 and r.ndim == 2 and a.shape != r.shape:
+                    ctx.violation("loader-mismatch", f"{what}: a file with {r.shape[0]} lines of {r.shape[1]} entries was loaded with "
+                                  f"shape {a.shape}", tags={"what": what, "degenerate": True})
+                    return
                 a, r = a.reshape(-1), r.reshape(-1)
             if a.shape != r.shape or not np.array_equal(a, r):
                 ctx.violation("loader-mismatch", f"{what}: loaded shape {a.shape} / file shape {r.shape}; first difference at "
